@@ -212,6 +212,19 @@ func c13r11(c *Ctx) {
 			if len(w.Expr.Args) == 3 && prog.ObjOf(info, w.Expr.Args[0]) == f.Param(0) && content != nil && prog.ObjOf(info, w.Expr.Args[1]) == content {
 				okW = true
 			}
+			if len(w.Expr.Args) == 3 && prog.ObjOf(info, w.Expr.Args[0]) == f.Param(0) && okM && !okW {
+				// through locals: every value the written bytes can have is the Marshal result
+				srcs := f.SourcesAt(w.Expr.Args[1], w.Expr)
+				all := len(srcs) > 0
+				for _, src := range srcs {
+					if !(src.Kind == "call" && strings.HasSuffix(src.Key, "yaml.v2.Marshal") || src.Kind == "call" && src.Key == "yaml.Marshal" || src.Kind == "zero") {
+						all = false
+					}
+				}
+				if all {
+					okW = true
+				}
+			}
 		}
 		c.check(okM && okW, R, f.Key+": WriteFile(path, Marshal(table))", f.Pos(), "the whole table to the given path", "the collision table is not serialised as a whole to the path it is later loaded from")
 	}
